@@ -246,7 +246,7 @@ type vBidi struct {
 	out, in chan *plugin.ConnInfo
 }
 
-func (s *vBidi) Send(i *plugin.ConnInfo) error    { s.out <- i; return nil }
+func (s *vBidi) Send(i *plugin.ConnInfo) error    { s.out <- vClone(i).(*plugin.ConnInfo); return nil } // marshalled: the peer gets a copy
 func (s *vBidi) Recv() (*plugin.ConnInfo, error) { return <-s.in, nil }
 
 type vBrokerClient struct{ h2p, p2h chan *plugin.ConnInfo }
@@ -411,5 +411,33 @@ func harnessC09grpc() {
 	vSleepUntil(vNow() + sec)
 	vAssert(hRun && pRun, "C09: closing the brokers ends their Run goroutines")
 	vCover("closed")
+	vDone()
+}
+
+// C20: a broker Accept (which sends connection info through the stream pump) racing with Close of the same broker, on
+// either side; all schedules within the reversal bound; no panic, no race, no hang.
+func harnessC20brokerClose() {
+	h2p, p2h := make(chan *plugin.ConnInfo, 8), make(chan *plugin.ConnInfo, 8)
+	hs := &gRPCBrokerClientImpl{client: vBrokerClient{h2p, p2h}, send: make(chan *sendErr), recv: make(chan *plugin.ConnInfo), quit: make(chan struct{})}
+	go func() { vDaemon(); hs.StartStream() }()
+	ps := newGRPCBrokerServer()
+	go func() { vDaemon(); ps.StartStream(&vBidi{vStreamBase{vCtx{}}, p2h, h2p}) }()
+	hb := newGRPCBroker(hs, nil, UnixSocketConfig{}, nil, nil2())
+	pb := newGRPCBroker(ps, nil, UnixSocketConfig{}, nil, nil2())
+	go func() { vDaemon(); hb.Run() }()
+	go func() { vDaemon(); pb.Run() }()
+	b := pb
+	if vChoice(2) == 1 {
+		vCover("host-side")
+		b = hb
+	} else {
+		vCover("plugin-side")
+	}
+	done := make(chan struct{}, 2)
+	go func() { b.Accept(5); done <- struct{}{} }()
+	go func() { b.Close(); done <- struct{}{} }()
+	<-done
+	<-done
+	vCover("both-returned")
 	vDone()
 }
